@@ -205,7 +205,7 @@ func conc(c *Ctx) {
 	}
 	nClients := 2 + r.Intn(4)
 	var hist []histOp
-	valContent := map[string][]byte{} // value id -> content (AC values)
+	valContent := map[string][]byte{}  // value id -> content (AC values)
 	intactStarted := map[string]bool{} // CAS keys of which an intact copy was stored or offered (by anyone, possibly still in flight)
 	for k := range preStored {
 		intactStarted[k] = true
